@@ -68,6 +68,14 @@ CHECKS = {
         "to every array result of every first operation (these share memory with the root): root and intermediate must stay bit-identical, any write through a view raises at the faulty line. "
         "For each operation with an in-place flag, op(copy, inplace=True) must return the copy itself and equal op(x) exactly.",
    note="Trusted: numpy's writeable flag and shares_memory; harness snapshot. Documented mutators are exercised on a library copy."),
+ "C09": dict(engine="E-bfs", design_ref="DESIGN.md 5 C09",
+   technique="explicit-state breadth-first search over the product of a lazy run and its synchronised twin on the real objects; invariant = equal observations in every product state",
+   text="Every fermionic root (all symmetries, n<=3, every direction pattern, even / odd with label, sparsity, every pending-sign subset for n<=2 and probes for n=3) is paired with a "
+        "harness-made twin whose signs are multiplied in. Every catalogue operation is applied to both with identical arguments, and binary operations with all four lazy/synced operand "
+        "combinations; successors keep the lazy branch un-synchronised so signs stay pending over several operations. In every product state the observations must agree: dense value with "
+        "signs applied by the harness, index tables, charge, labels, scalars, vectors; decompositions through spectra and reconstructed products; phase_sync must clear the table, apply each sign "
+        "exactly once and be idempotent.",
+   note="Trusted: harness embedding with harness-applied signs. Raw-storage accessors (get_params, set_params, apply_to_arrays, blocks) are excluded: they expose storage by design. Boolean results of isfinite are not expanded."),
 }
 
 _ALL = ["C%02d" % i for i in range(1, 21)]
